@@ -134,8 +134,11 @@ def run(prop, tier_, sample=None, jobs=12, newino=20):
                 nodes.append(dict(id=1000 + len(nodes), p=n["p"], n=n["n"], k="hard", b=str(n["id"])))
             else:
                 nodes.append(node_to_pv(n))
+        # every second case goes through the C ABI (pathrs_inroot_*), the others through the Rust API
+        api = "c" if ci % 2 else "rust"
+        c["api"] = api
         for bname, feat in FEATS:
-            pv_cases.append(dict(id="%d-%s" % (ci, bname), tree=nodes, feat=feat, trace=False, calls=[lib_call(c)]))
+            pv_cases.append(dict(id="%d-%s" % (ci, bname), tree=nodes, feat=feat, trace=False, calls=[dict(lib_call(c), api=api)]))
             index.append((ci, bname))
         k = kref_call(c)
         if k is not None:
@@ -177,18 +180,20 @@ def judge_c14(data, v, stats, samples):
         for bname, _ in FEATS:
             got = d[bname]
             stats["runs_" + bname] += 1
-            same_out = got["out"][0] == truth_out[0] and (got["out"][0] != "err" or got["out"][1] == truth_out[1]) and \
-                (c["op"]["op"] != "create_file" or got["out"] == truth_out)
+            # the C ABI reports ErrorKind::InvalidArgument as EINVAL and safety violations as EXDEV (by contract, C16)
+            canon = (lambda e: {"InvalidArgument": "EINVAL", "SAFETY": "EXDEV"}.get(e, e)) if c.get("api") == "c" else (lambda e: e)
+            same_out = got["out"][0] == truth_out[0] and (got["out"][0] != "err" or canon(got["out"][1]) == canon(truth_out[1])) and \
+                (c["op"]["op"] != "create_file" or got["out"][0] != "ok" or got["out"] == truth_out)
             if same_out and got["shape"] == truth_shape:
                 stats["agree_" + bname] += 1
                 continue
             sig = dict(check="rootops-static", backend=bname, op=c["op"]["op"], final_name=c["split"]["name"], path=path, path2=path2, tree=c["tree"],
                        got=list(got["out"]), want=list(truth_out), opdetail=c["op"])
-            desc = "%s backend: %s(%r%s) on tree %s: outcome %s, final tree %s; the raw *at call on (in-root parent %r, name %r) gives %s" % (
+            desc = ("[C API] " if c.get("api") == "c" else "") + "%s backend: %s(%r%s) on tree %s: outcome %s, final tree %s; the raw *at call on (in-root parent %r, name %r) gives %s" % (
                 bname, json.dumps(c["op"]), path, (", %r" % path2) if path2 else "", c["tree"], got["out"],
                 "as expected" if got["shape"] == truth_shape else "DIFFERS (%s)" % sorted(got["shape"] ^ truth_shape, key=str)[:4],
                 "/".join(c["split"]["dir"]), c["split"]["name"], truth_out)
-            replay = dict(id="replay", tree=[node_to_pv(n) for n in data["trees"][c["tree"]]["nodes"] if n["k"] != "hard"], feat=dict(FEATS)[bname], trace=False, calls=[lib_call(c)])
+            replay = dict(id="replay", tree=[node_to_pv(n) for n in data["trees"][c["tree"]]["nodes"] if n["k"] != "hard"], feat=dict(FEATS)[bname], trace=False, calls=[dict(lib_call(c), api=c.get("api", "rust"))])
             v.violation(sig, desc, replay)
         if len(samples) < 5 and c["split"]["name"] in (".", ".."):
             samples.append(dict(tree=c["tree"], op=c["op"], path=path, path2=path2, model=list(m_out), kernel_ref=list(ref["out"]) if ref else None,
